@@ -329,10 +329,13 @@ impl<'a> SeqModel<'a> {
                     t.cursor_floating = false;
                     t.float_candidates.clear();
                 }
-                let expect: Vec<Sig> = t.log[cursor.min(t.log.len())..].to_vec();
+                // a drain that stopped because it reached its call limit consumed only a prefix
+                let ended_empty = res.calls.last() == Some(&0) || res.calls.is_empty();
+                let full_expect: Vec<Sig> = t.log[cursor.min(t.log.len())..].to_vec();
+                let expect: Vec<Sig> = if ended_empty || res.k != "ok" { full_expect } else { full_expect.into_iter().take(res.entries.len()).collect() };
                 let log = t.log.clone();
                 t.returned += res.entries.len() as u64;
-                t.cursor = t.log.len();
+                t.cursor = if ended_empty { t.log.len() } else { (cursor + res.entries.len()).min(t.log.len()) };
                 let got = &res.entries;
                 let mut first_bad = None;
                 for i in 0..expect.len().max(got.len()) {
